@@ -1111,13 +1111,10 @@ func (db *DatabaseCollectionWithUser) OnDemandImportForWrite(ctx context.Context
 	if syncDataErr := doc.validateSyncDataForImport(ctx, db.dbCtx, docid); syncDataErr != nil {
 		return syncDataErr
 	}
-	// Check whether the doc requiring import is an SDK delete
-	isDelete := false
-	if doc.Body(ctx) == nil {
-		isDelete = true
-	} else {
-		isDelete = deleted
-	}
+	// Check whether the doc requiring import is an SDK delete. This is a property of the bucket document being
+	// imported (no body), not of the incoming write: doc.Deleted is set by UnmarshalWithXattrs when the bucket
+	// document is a tombstone that still carries xattrs (doc.Body is then an empty placeholder, never nil).
+	isDelete := doc.Body(ctx) == nil || doc.Deleted
 	// Use an admin-scoped database for import
 	importDb := DatabaseCollectionWithUser{DatabaseCollection: db.DatabaseCollection, user: nil}
 
